@@ -22,7 +22,7 @@ func init() { register(c07{}) }
 func (c07) ID() string            { return "C07" }
 func (c07) EvidenceLevel() string { return "exploration" }
 func (c07) Rule() string {
-	return "case = a well-formed gzip (1..3 members) or zlib container from either writer, payload 0..200 KiB, then many corruptions of it: every single-bit flip when the container is <= 400 bytes, random 1-3 bit flips / byte substitutions, targeted flips in trailer, flags and header CRC, and truncation at every byte (small) or sampled (large); destination sizes 1,7,512,64K. An independent container parser in the harness (liberal RFC 1950/1952 header reading + permissive reference inflater + own CRC-32/Adler-32/ISIZE check) decides what each corrupted input is. io.EOF from fastgo requires that parser to accept the input with identical bytes; a truncation strictly inside a member must end in io.ErrUnexpectedEOF after a prefix of the payload; every Read stays within 0..len(p); errors are of the allowed kinds and sticky. Non-trivial: the corrupted input differs from the original; distinct by its digest. A quarter of the reads issue a zero-length Read right after the last payload byte has been delivered, before reading on. Case 0 (levels 0, 3, 4): one member of 2^32+4097 zero bytes with a flipped bit in the high or low byte of its length field or in its CRC must not end in io.EOF."
+	return "case = a well-formed gzip (1..3 members) or zlib container from either writer, payload 0..200 KiB, then many corruptions of it: every single-bit flip when the container is <= 400 bytes, random 1-3 bit flips / byte substitutions, targeted flips in trailer, flags and header CRC, and truncation at every byte (small) or sampled (large); destination sizes 1,7,512,64K. An independent container parser in the harness (liberal RFC 1950/1952 header reading + permissive reference inflater + own CRC-32/Adler-32/ISIZE check) decides what each corrupted input is. io.EOF from fastgo requires that parser to accept the input with identical bytes; a truncation strictly inside a member must end in io.ErrUnexpectedEOF after a prefix of the payload; every Read stays within 0..len(p); errors are of the allowed kinds and sticky. Non-trivial: the corrupted input differs from the original; distinct by its digest. A quarter of the reads issue a zero-length Read right after the last payload byte has been delivered, before reading on. Case 0 (levels 0, 3, 4): one member of 2^32+4097 zero bytes with a flipped bit in the high or low byte of its length field or in its CRC must not end in io.EOF. gzip containers are also corrupted with NUL bytes where a member header is due (one or ten, at every member boundary) and with 1..512 NUL bytes appended."
 }
 func (c07) NumCases(tier string) int {
 	if tier == "thorough" {
@@ -364,6 +364,24 @@ func (p c07) Run(c *mon.Ctx, i int) {
 				}
 			}
 			cs = append(cs, corruption{b: cont[:t], what: fmt.Sprintf("truncate@%d", t), trunc: t})
+		}
+	}
+	// NUL bytes where a member header is due: padding-like, but not a gzip member
+	if kind == "gzip" {
+		for _, end := range memberEnds {
+			if end < len(cont) {
+				b := append([]byte(nil), cont...)
+				b[end] = 0
+				cs = append(cs, corruption{b: b, what: fmt.Sprintf("nul-at-member-start@%d", end), trunc: -1})
+				b2 := append([]byte(nil), cont...)
+				for j := end; j < end+10 && j < len(b2); j++ {
+					b2[j] = 0
+				}
+				cs = append(cs, corruption{b: b2, what: fmt.Sprintf("ten-nuls-at-member-start@%d", end), trunc: -1})
+			}
+		}
+		for _, k := range []int{1, 2, 9, 10, 11, 512} {
+			cs = append(cs, corruption{b: append(append([]byte(nil), cont...), make([]byte, k)...), what: fmt.Sprintf("%d-nuls-appended", k), trunc: -1})
 		}
 	}
 	// the untouched container must read back (otherwise the case says nothing)
